@@ -1761,6 +1761,17 @@ class KmipEngine(object):
                 new_attribute.tag
             )
 
+            if current_attribute is not None:
+                if current_attribute.tag != new_attribute.tag:
+                    raise exceptions.KmipError(
+                        status=enums.ResultStatus.OPERATION_FAILED,
+                        reason=enums.ResultReason.INVALID_FIELD,
+                        message=(
+                            "The current attribute and the new attribute "
+                            "must be values of the same attribute."
+                        )
+                    )
+
             if not self._attribute_policy.is_attribute_modifiable_by_client(
                 attribute_name
             ):
